@@ -139,6 +139,17 @@ Run(t, x, inv) ==
                 s3 == Transpose(s2, w, h)
                 s4 == RunChunks(b, s3, h, inv)
             IN GtReindexOutput(s4, w, h)
+      [] t.k = "GoodThomasSmall" ->
+            \* GoodThomasAlgorithmSmall: precomputed CRT / Ruritanian maps (constructor), width FFTs first
+            LET w == t.ch[1].len  h == t.ch[2].len
+                winv == CHOOSE v \in 0..Max(h - 1, 0) : (w * v) % h = 1 % h
+                hinv == CHOOSE v \in 0..Max(w - 1, 0) : (h * v) % w = 1 % w
+                s1 == [i \in 1..n |-> x[((((i - 1) % w) * h + ((i - 1) \div w) * w) % n) + 1]]
+                s2 == RunChunks(t.ch[1], s1, w, inv)
+                s3 == Transpose(s2, w, h)
+                s4 == RunChunks(t.ch[2], s3, h, inv)
+                omap == [i \in 1..n |-> (((i - 1) \div h) * h * hinv + ((i - 1) % h) * w * winv) % n]
+            IN [j \in 1..n |-> s4[CHOOSE i \in 1..n : omap[i] = j - 1]]
       [] t.k = "Raders" ->
             LET m == n - 1
                 g == PrimRoot(n)  gi == ModInv(g, n)
